@@ -48,7 +48,24 @@ Proof.
   - destruct C as [C|C]; [apply seqb_neq in S; contradiction|]. rewrite seqb_refl. rewrite C, seqb_refl, orb_true_r. reflexivity.
 Qed.
 
-Definition build_errors : list string := ["IndexError:site_degree"; "ZeroDivisionError:pmd"; "ValueError:pmd"]%string.
+Definition build_errors : list string :=
+  ["IndexError:site_degree"; "ZeroDivisionError:pmd"; "ValueError:pmd"; "ValueError:impairment_id";
+   "NetworkTopologyError:impairment_mismatch"]%string.
+
+Lemma roadm_el_errors : forall rs n e, roadm_el rs n = Err e ->
+  e = "ValueError:impairment_id"%string \/ e = "NetworkTopologyError:impairment_mismatch"%string.
+Proof.
+  intros rs n e H. unfold roadm_el in H.
+  destruct (mapM _ (roadms_of (n_city n) rs)) as [imps|e'] eqn:M; cbn [bind] in H; [discriminate|]. inversion H; subst e'.
+  apply mapM_err in M. destruct M as [r [_ Hr]]. unfold row_impairments in Hr.
+  destruct (ostr_o (rr_from_deg r)) as [fd|]; [|discriminate].
+  destruct (transform_data (rr_imp r)) as [ids|e'] eqn:T; cbn [bind] in Hr.
+  - destruct ids as [ids|]; [|discriminate]. destruct (Nat.eqb _ _); [discriminate|]. inversion Hr. auto.
+  - inversion Hr; subst e'. unfold transform_data in T. destruct (rr_imp r) as [|s|q]; try discriminate.
+    destruct (seqb s ""); [discriminate|].
+    destruct (mapM _ (split bar s)) as [l|e'] eqn:M; cbn [bind] in T; [discriminate|]. inversion T; subst e'.
+    apply mapM_err in M. destruct M as [x [_ Hx]]. destruct (parse_int x); [discriminate|]. inversion Hx. auto.
+Qed.
 
 Lemma ecc_errors : forall ns ls es n e, In n ns -> NoDup (cities ns) ->
   eqpt_connection_by_city (n_city n) ns ls es = Err e ->
@@ -117,6 +134,9 @@ Proof.
                  In r build_errors /\ (r = "IndexError:site_degree"%string -> exists n, In n ns /\ n_type n <> TRoadm /\
                                        (length (links_of (n_city n) ls) < 2)%nat)).
   { intros r [E | E]; subst r; (split; [cbn; tauto | discriminate]). }
+  destruct (mapM (roadm_el rs) (filter (is_t TRoadm) ns)) as [re|r] eqn:E0; cbn [bind] in H.
+  2:{ inversion H; subst r. apply mapM_err in E0. destruct E0 as [m [_ Hm]].
+      destruct (roadm_el_errors _ _ _ Hm) as [-> | ->]; (split; [cbn; tauto | discriminate]). }
   destruct (mapM (fiber_el ns East) ls) as [ef|r] eqn:E1; cbn [bind] in H; [|inversion H; subst; apply Hpmd; eapply Hfib; exact E1].
   destruct (mapM (fiber_el ns West) ls) as [wf|r] eqn:E2; cbn [bind] in H; [|inversion H; subst; apply Hpmd; eapply Hfib; exact E2].
   destruct (mapM (eqpt_el ns East) es) as [ee|r] eqn:E3; cbn [bind] in H; [|exfalso; eapply Heq; exact E3].
@@ -126,10 +146,13 @@ Proof.
   split; [rewrite A; cbn; tauto|]. intros _. exists n. auto.
 Qed.
 
-(* every rejection of the model is one of the ten sanity rules, or the arithmetic error of a PMD value on a
-   non-positive length; in particular the IndexError of eqpt_connection_by_city is unreachable *)
+(* every rejection of the model is one of the ten sanity rules, the documented error of a Roadms row whose 'from
+   degrees' and impairment ids differ in number, a non-integer impairment id, or the arithmetic error of a PMD
+   value on a non-positive length; in particular the IndexError of eqpt_connection_by_city is unreachable *)
+Definition other_errors : list string :=
+  ["NetworkTopologyError:impairment_mismatch"; "ValueError:impairment_id"; "ZeroDivisionError:pmd"; "ValueError:pmd"]%string.
 Theorem convert_errors : forall w e, convert w = Err e ->
-  (exists r, In r rules /\ e = topo_err r) \/ e = "ZeroDivisionError:pmd"%string \/ e = "ValueError:pmd"%string.
+  (exists r, In r rules /\ e = topo_err r) \/ In e other_errors.
 Proof.
   intros w e H. rewrite convert_unfold in H.
   destruct (checks_cases (nodes_of w) (links_of_w w) (eqpts_of_w w)) as [[r [Hr He]]|[S [H1 H2]]];
@@ -142,7 +165,8 @@ Proof.
     + rewrite cities_correct. exact S1.
     + intros l Il. rewrite cities_correct. apply S2. exact Il.
     + intros q Iq. rewrite cities_correct. apply (S5 q Iq).
-    + cbn [build_errors In] in A. destruct A as [A|[A|[A|[]]]]; [|left; auto|right; auto].
+    + cbn [build_errors In] in A. cbn [other_errors In].
+      destruct A as [A|[A|[A|[A|[A|[]]]]]]; [|tauto|tauto|tauto|tauto].
       exfalso. destruct (B (eq_sym A)) as [m [Hm [T L]]].
       apply in_map_iff in Hm. destruct Hm as [n [Em In_]]. subst m. rewrite correct_type_city in L.
       unfold correct_type in T.
